@@ -26,7 +26,7 @@ FAMS = ("qp", "oscillating", "sinus", "exp_wall", "qp_quartic", "quantized", "of
 
 
 def floors(tier):
-    return {"calls": 2500, "multi_trial_calls": 500, "returned_none": 40, "points_checked": 6000, "step_at_max": 100, "calls_with_a_nan_trial_value": 80, "calls_with_an_optimisation_nested_in_the_objective": 150, "calls_with_single_precision_point": 150, "calls_on_a_wrapper_whose_last_point_is_not_the_start": 300, "calls_with_a_subnormal_direction_component_limiting_the_step": 150, "__nontrivial__": 500}
+    return {"calls": 2500, "multi_trial_calls": 500, "returned_none": 40, "points_checked": 6000, "step_at_max": 100, "calls_with_a_nan_trial_value": 80, "calls_with_an_optimisation_nested_in_the_objective": 150, "calls_with_single_precision_point": 150, "searches_inside_runs_checked": 1000, "searches_inside_runs_using_their_whole_cap": 200, "runs_with_the_factorisation_checking_switch": 60, "calls_on_a_wrapper_whose_last_point_is_not_the_start": 300, "calls_with_a_subnormal_direction_component_limiting_the_step": 150, "__nontrivial__": 500}
 
 
 def make_objective(rng, fam, n):
@@ -132,6 +132,85 @@ def cases(tier, seed):
     nc = 400 if tier == "quick" else 16000
     for i in range(nc):
         yield {"seed": subseed("C11", seed, i) % (2**31), "count": 12}
+    rng = np.random.default_rng(subseed("C11runs", seed))
+    for i in range(300 if tier == "quick" else 8000):
+        # the line searches of whole runs, every option of the solver that reaches them varied (starved caps, evaluation budgets ending
+        # inside a search, user step caps, the factorisation-checking switch, loggers, restarts)
+        ps = gen.rand_spec(rng, ("rosenbrock", "rastrigin", "styblinski_tang", "qp", "qp_quartic", "beale", "exp_wall", "qp_inf_region"), nmax=6, nmin=1)
+        cfg = {"jac": "callable", "maxcor": int(rng.integers(1, 9)), "maxls": int(gen.pick(rng, [1, 2, 2, 3, 5, 20])), "maxiter": int(rng.integers(3, 25)),
+               "maxfun": int(gen.pick(rng, [4, 7, 12, 25, 15000])), "ftol": 0.0, "gtol": 1e-10, "cb": "never",
+               "is_check_factorization": bool(i % 3 == 0), "max_steplength": float(gen.pick(rng, [1e8, 1e8, 1.0, 0.3]))}
+        if i % 4 == 1:
+            cfg.update(logger=True, iprint=int(gen.pick(rng, [0, 99, 101])))
+        yield {"kind": "in_run", "problem": ps, "cfg": cfg, "restart_after": int(rng.integers(1, 4)) if i % 2 == 0 else 0}
+
+
+def run_in_run(spec, out):
+    """Every line search of a real run, observed at the boundary of `line_search`: the objective evaluations made between entry and exit
+    (counted by the user's objective itself) never exceed the cap the routine was given, and every point evaluated meanwhile is in the box."""
+    import lbfgsb.main as M
+
+    P = gen.make_problem(spec["problem"])
+    cfg = dict(spec["cfg"])
+    holder = {}
+    nsearch = {"n": 0, "full": 0}
+
+    def pre(ev):
+        ev["nf_before"] = holder["tr"].nf if "tr" in holder else None
+
+    def on_event(ev):
+        live = ev.get("live") or {}
+        cap = live.get("max_iter")
+        tr = holder.get("tr")
+        if tr is None or cap is None or ev.get("nf_before") is None:
+            out.count("probe_args_unavailable")
+            return
+        used = tr.nf - ev["nf_before"]
+        nsearch["n"] += 1
+        out.count("searches_inside_runs_checked")
+        if used >= cap:
+            nsearch["full"] += 1
+            out.count("searches_inside_runs_using_their_whole_cap")
+        if used > cap and not out.violations:
+            out.violate("budget_exceeded", f"in a run of {P.spec['family']} n={P.n} (maxls={cfg['maxls']}, maxfun={cfg['maxfun']}, is_check_factorization="
+                        f"{cfg['is_check_factorization']}): a line search given a cap of {cap} made {used} objective evaluations", family=P.spec["family"], mode="in_run")
+        for k, p_, v in tr.evals[-used:] if used > 0 else []:
+            if not probes.in_box(np.real(p_), P.lb, P.ub) and not out.violations:
+                out.violate("trial_outside_box", f"in a run of {P.spec['family']}: a point evaluated during a line search lies outside the box: {np.real(p_).tolist()}",
+                            what="evaluated_point", family=P.spec["family"], mode="in_run")
+
+    def go(c, **kw):
+        tr = probes.Trace()
+        holder["tr"] = tr
+        kwargs = probes.build_kwargs(P, c, tr, **kw)
+        old = np.seterr(all="ignore")
+        try:
+            from lbfgsb import minimize_lbfgsb
+
+            tr.result = minimize_lbfgsb(**kwargs)
+        except AssertionError as e:
+            tr.exc = e
+            out.count("runs_ended_by_the_factorisation_checking_switch" if c.get("is_check_factorization") else "runs_raised")
+        except Exception as e:
+            tr.exc = e
+            out.count("runs_raised")
+        finally:
+            np.seterr(**old)
+        return tr
+
+    with probes.Intercept(M, ["line_search"], copy_args=False, on_call=pre) as ic:
+        ic.on_event = on_event
+        first = go(dict(cfg, maxiter=spec["restart_after"]) if spec.get("restart_after") else cfg)
+        if spec.get("restart_after") and first.result is not None and first.result.nit == spec["restart_after"]:
+            out.count("runs_continued_from_a_checkpoint")
+            go(dict(cfg, plain_inputs=True), checkpoint=first.result, x0=np.array(first.result.x, dtype=float, copy=True))
+    out.count("runs_observed")
+    if cfg.get("is_check_factorization"):
+        out.count("runs_with_the_factorisation_checking_switch")
+    out.nontrivial = nsearch["full"] > 0
+    out.key = f"in_run/{P.spec['family']}/{P.spec['seed']}/{cfg['maxls']}/{cfg['maxfun']}"
+    out.sample = dict(spec=spec, searches=nsearch["n"])
+    return out
 
 
 def nan_band_call(rng):
@@ -211,6 +290,8 @@ def run(spec):
     from lbfgsb.scalar_function import prepare_scalar_function
 
     out = Outcome()
+    if spec.get("kind") == "in_run":
+        return run_in_run(spec, out)
     keys = set()
     rng = np.random.default_rng(spec["seed"])
     old = np.seterr(all="ignore")
